@@ -43,3 +43,4 @@ func TestC08Enum(t *testing.T) { RunC08Enum(t) }
 func TestC19Big(t *testing.T) { RunC19Big(t) }
 func TestC02Big(t *testing.T) { RunC02Big(t) }
 func TestC10EnumOdd(t *testing.T) { RunC10EnumOdd(t) }
+func TestC11ClosureOdd(t *testing.T) { RunC11ClosureOdd(t) }
